@@ -8,3 +8,10 @@ build:
 
 clean:
 	rm -rf /verif/bin /verif/.cache
+
+# the verifier's own regression: every seeded property-breaking change must be reported (must-fail corpus,
+# about two hours; needs a clean /repo working tree, which it modifies and restores entry by entry) and every
+# semantics-preserving edit must verify (must-pass corpus, about fifteen minutes; works on a scratch worktree)
+selftest: build
+	/verif/tools/mustpass.sh
+	/verif/tools/reseed.sh
